@@ -5,6 +5,7 @@
 //!   nv replay <ID> <file>
 
 mod cfg;
+mod decode;
 mod emodel;
 mod gen;
 mod model;
@@ -24,6 +25,10 @@ fn main() -> ExitCode {
         "check" => runner::cmd_check(&args[2..]),
         "child" => runner::cmd_child(&args[2..]),
         "replay" => runner::cmd_replay(&args[2..]),
+        "elidetest" => {
+            elidetest();
+            ExitCode::SUCCESS
+        }
         "locktest" => {
             locktest();
             ExitCode::SUCCESS
@@ -85,5 +90,51 @@ fn locktest() {
         }
     }
     println!("failures: {fails}/300");
+    let _ = std::fs::remove_dir_all(&dir);
+}
+
+fn elidetest() {
+    use nomt::{KeyReadWrite, SessionParams};
+    type Db = nomt::Nomt<nomt::hasher::Blake3Hasher>;
+    let dir = std::path::PathBuf::from(format!("/dev/shm/nv-elide.{}", std::process::id()));
+    let _ = std::fs::remove_dir_all(&dir);
+    let mut c = cfg::Cfg::default_small();
+    c.buckets = 1024;
+    let db = Db::open(c.options(&dir)).unwrap();
+    let s = db.begin_session(SessionParams::default());
+    let mut batch = Vec::new();
+    for i in 0..10u8 {
+        let mut k = [0u8; 32];
+        k[0] = 0xAB;
+        k[1] = 0xC0 | (i & 0x0f); // 12 shared bits 0xABC, then 4 varying bits
+        k[5] = i;
+        batch.push((k, KeyReadWrite::Write(Some(vec![i; 4]))));
+    }
+    // some other keys so that the root has structure
+    for i in 0..3u8 {
+        let mut k = [0u8; 32];
+        k[0] = i * 40 + 1;
+        batch.push((k, KeyReadWrite::Write(Some(vec![i; 4]))));
+    }
+    batch.sort_by(|a, b| a.0.cmp(&b.0));
+    s.finish(batch).unwrap().commit(&db).unwrap();
+    let occ = db.hash_table_utilization();
+    println!("occupied {:?}", occ);
+    let meta = decode::read_meta(&dir).unwrap();
+    let n = meta.bitbox_num_pages as u64;
+    let mp = (n + 4095) / 4096;
+    let ht = decode::StoreFile::open(&dir.join("ht")).unwrap();
+    let map = ht.page(0).unwrap();
+    for b in 0..n {
+        if map[b as usize] & 0x80 != 0 {
+            let p = ht.page((mp + b) as u32).unwrap();
+            let label: [u8; 32] = p[4096 - 32..].try_into().unwrap();
+            let pid = decode::path_of_label(&label).unwrap();
+            let el = u64::from_le_bytes(p[4096 - 40..4096 - 32].try_into().unwrap());
+            let nz = (0..126).filter(|i| p[i * 32..i * 32 + 32] != [0u8; 32]).count();
+            println!("bucket {b}: page depth {} label ..{:02x}{:02x} elided {:#018x} nonzero nodes {nz}", pid.len(), label[30], label[31], el);
+        }
+    }
+    drop(db);
     let _ = std::fs::remove_dir_all(&dir);
 }
